@@ -277,8 +277,16 @@ def d2(repo: Repo) -> RuleResult:
                             reported = True
                             break
                         continue
-                    strip = lambda x: _squash(x).replace("(", "").replace(")", "").replace("@U@", "")
+                    strip = lambda x: _squash(x).replace("(", "").replace(")", "")
+                    strip_u = lambda x: strip(x).replace("@U@", "")
                     if True:
+                        if strip(got) not in {strip(w) for w in want} and any("@U@" in w for w in want) and strip(got) in {strip_u(w) for w in want}:
+                            need = needs_width(which, S_, shift, fi)
+                            f = Finding("D2", fi_.rel, fi_.node.lineno, fi_.qual, got, f"for a {tcls}{'->' + target if target else ''} field stored in {S_} bits and planner output (r={r}, shift={shift}, fi={fi}) the {'big-endian ' if be else ''}{which} emits `{got}` without the unsigned working-type cast of `{want[0]}`: the byte is shifted as an `unsigned` / `int` ({need} bits are needed)", witness="uint64 field: bytes 4..7 are shifted out of a 32-bit int (undefined behaviour / zero)", tag=f"{fi_.qual}:{part}:no-widening")
+                            f.part = part
+                            res.bad(f)
+                            reported = True
+                            break
                         if strip(got) in {strip(w) for w in want}:
                             res.unsure(f"D2: {cls}.{meth}: statement `{got}` differs from `{want[0]}` only in parentheses; operator precedence not judged")
                             reported = True
